@@ -177,6 +177,13 @@ class History:
                     return
                 else:
                     self.call(op, getattr(est, op), D["X"])
+            elif op == "fit_no_matrix":
+                # Kauri with kernel='precomputed' called without the matrix: a documented fall-back (warning + linear kernel)
+                if not (self.kauri and self.spec["kernel"]["form"] in ("precomputed", "psd", "indef")):
+                    return
+                self.call(op, est.fit, D["X"])
+                self.fitted_d = D["X"].shape[1]
+                op = "fit"
             elif op == "path":
                 if self.spec["cls"] not in E.SPARSE or not self.compatible(step["ds"]):
                     return
@@ -382,6 +389,8 @@ def step_strategy(spec, changes_only=False):
            st.builds(lambda d, z: {"op": "mutate_data", "ds": d, "seed": z}, ds, st.integers(0, 1000))]
     if spec["cls"] in E.SPARSE:
         ops += [st.builds(lambda d: {"op": "path", "ds": d}, ds), st.just({"op": "probe_path"})]
+    if kauri:
+        ops += [st.builds(lambda d: {"op": "fit_no_matrix", "ds": d}, ds)] * 2
     return st.one_of(*ops)
 
 
